@@ -253,6 +253,20 @@ let run_stat toks =
      | Inr (VProj _) -> add "ERR proj")
   | _ -> add "BAD-CASE"
 
+(* ---------------------------------------------------------------- streams *)
+let parse_opt s = if s = "-" then None else Some (ZA.of_string s)
+let run_stream toks =
+  match toks with
+  | ["cnpy"; hex; sched; fail] ->
+    (match read_npy_s (mk_reader (bytes_of_hex hex) (parse_list sched) (parse_opt fail)) with
+     | Inl (sh, vals) -> add ("OK " ^ fmt_list sh ^ " " ^ fmt_bits_list vals)
+     | Inr _ -> add "ERR")
+  | ["cwrite"; "npy"; sh; _; bits; wsched; wfail] ->
+    (match write_pieces (npy_pieces (parse_list sh) (parse_bits_list bits)) (mk_writer (parse_list wsched) (parse_opt wfail)) with
+     | Inl w -> add ("OK " ^ hex_of_bytes w.accepted)
+     | Inr _ -> add "ERR")
+  | _ -> add "BAD-CASE"
+
 let run_case line =
   let toks = split_ws line in
   match toks with
@@ -264,6 +278,7 @@ let run_case line =
      | "npyw" | "npyr" | "textw" | "read" | "fmt" | "parse" | "detect" -> run_bytes toks
      | "classify" | "sites" | "create" -> run_create toks
      | "stat" | "viewrun" -> run_stat toks
+     | "cnpy" | "cwrite" -> run_stream toks
      | _ -> add ("UNKNOWN-OP " ^ op))
 
 let () =
